@@ -170,11 +170,9 @@ def word_case(w, code_like=False):
     character: skip the letters of the control sequence, then the first letter before the group closes (at any depth
     inside it) decides, and if there is none the word is caseless.  (BibTeX's table of foreign characters -- \\o,
     \\AA ... -- is not modelled; no generated alphabet contains them.)
-
-    code_like=True switches on the *defect model* of family N13-special-char-case, used only to classify an observed
-    difference, never to compute an expectation:  (m1) an escaped letter inside an ordinary brace group decides the
-    case, (m2) a special character without a letter lets the text after it decide, (m3) brace-backslash-blank is not
-    recognised as a special character, (m4) a nested brace inside a special character ends the search in that group."""
+    code_like=True evaluates the defect model below instead (classification of observed differences only)."""
+    if code_like:
+        return word_case_defect_model(w)
     i, n = 0, len(w)
     while i < n:
         c = w[i]
@@ -187,9 +185,7 @@ def word_case(w, code_like=False):
             return _letter_case(c)
         if c == "{":
             special = i + 1 < n and w[i + 1] == "\\"
-            if code_like and special and i + 2 < n and w[i + 2] in NAME_WS:
-                special = False                                   # (m3)
-            j, depth, searching = i + 1, 1, special
+            j, depth = i + 1, 1
             if special:
                 j = i + 2
                 if j < n and not w[j].isalpha():
@@ -200,23 +196,61 @@ def word_case(w, code_like=False):
             while j < n and depth > 0:
                 c = w[j]
                 if c == "\\":
-                    if (searching or code_like) and j + 1 < n and w[j + 1].isalpha():
-                        return _letter_case(w[j + 1])             # code_like without searching: (m1)
+                    if special and j + 1 < n and w[j + 1].isalpha():
+                        return _letter_case(w[j + 1])
                     j += 2
                     continue
-                if searching and c.isalpha():
+                if special and c.isalpha():
                     return _letter_case(c)
                 if c == "{":
                     depth += 1
-                    if code_like:
-                        searching = False                         # (m4)
                 elif c == "}":
                     depth -= 1
                 j += 1
-            if special and not code_like:
+            if special:
                 return "n"                                        # BibTeX: the special character alone decides
-            i = j                                                 # ordinary group skipped (or (m2))
+            i = j                                                 # ordinary group skipped
             continue
+        i += 1
+    return "n"
+
+
+def word_case_defect_model(w):
+    """Defect model of family N13-special-char-case -- how the word case comes out when special characters are tracked
+    with per-brace flags instead of BibTeX's rule.  Used only to *classify* an observed difference, never to compute an
+    expectation.  Differences from word_case:  (m1) an escaped letter inside an ordinary brace group decides the case;
+    (m2) a special character without a letter lets the text after it decide;  (m3) brace-backslash-blank is not
+    recognised as a special character;  (m4) a nested brace inside a special character ends the search in that group;
+    (m5) brace-backslash at any depth (not only depth 0) starts a special character;  (m6) an escaped non-letter inside
+    a control word does not end the control word."""
+    i, n, depth, searching = 0, len(w), 0, False
+    while i < n:
+        c = w[i]
+        if c == "\\":
+            if i + 1 < n and w[i + 1] in NAME_WS:
+                i += 1                                            # backslash-blank: two ordinary characters
+                continue
+            if i + 1 < n and w[i + 1].isalpha():
+                return _letter_case(w[i + 1])                     # at any depth: (m1)
+            i += 2
+            continue
+        if c == "{":
+            depth += 1
+            searching = False                                     # (m4)
+            if i + 2 < n and w[i + 1] == "\\" and w[i + 2] not in NAME_WS:      # (m3), (m5)
+                searching = True
+                i += 2
+                if w[i].isalpha():
+                    while i < n and (w[i].isalpha() or (w[i] == "\\" and i + 1 < n and not w[i + 1].isalpha() and w[i + 1] not in NAME_WS)):
+                        i += 1 if w[i].isalpha() else 2           # (m6)
+                else:
+                    i += 1
+                continue
+        elif c == "}":
+            depth -= 1
+            searching = False
+        elif c.isalpha() and (depth == 0 or searching):           # depth 0 after a letterless special character: (m2)
+            return _letter_case(c)
         i += 1
     return "n"
 
